@@ -1018,3 +1018,64 @@ def r5_5_copy_sets_count(ck, P):
                 ck.ok(R, '%s (%s): count stored on every path to the array copy' % (f.name, _w(u)))
             else:
                 ck.violation(R, f.name, 'rectangle count not copied (%s)' % _w(u), '%s can reach the copy of the rectangle array (%s) without storing the source\'s count into the destination: when the destination already has a large enough array its old count survives and stale rectangles stay in the copy' % (f.name, esc.loc()), esc.loc())
+
+
+def r5_6_subsumption_single_rect(ck, P):
+    """extents subsume extents says something about the regions only if the subsuming one IS its extents"""
+    R = ck.rule('C05-R6', 'every shortcut that concludes "region A contains region B" from A\'s extents containing B\'s extents is taken only when A is a single rectangle (A->data == NULL): the data test names the same operand as the subsuming side of the comparison', floor=4)
+    n = 0
+    for u in units(P):
+        reg = _reg(u)
+        for f in u.functions.values():
+            if not f.exported:
+                continue
+            for b in f.blocks:
+                ge = f.guard_edges(b.id)
+                # who subsumes whom: A.x1 <= B.x1 taken true (or the symmetric form), from extents fields of two parameters
+                sub = set(); nodata = set()
+                for t, s_ in ge:
+                    if t.op != 'br' or not t.a:
+                        continue
+                    c = f.v(t.a[0])
+                    if c is None or c.op != 'icmp':
+                        continue
+                    taken = t.d['succ'][0] == s_
+                    pred = c.d['p'] if taken else f.INV.get(c.d['p'], c.d['p'])
+                    if any(o[0] == 'n' for o in c.a):
+                        y = f.v(f.strip_casts([o for o in c.a if o[0] != 'n'][0])) if [o for o in c.a if o[0] == 'v'] else None
+                        if y is not None and y.op == 'load' and (f.last_field(f.path(y.a[0])) or '') == reg + '.data' and pred == 'eq':
+                            r = f.root(f.path(y.a[0]))
+                            if r[0] == 'arg':
+                                nodata.add(r[1])
+                        continue
+                    ys = [f.v(f.strip_casts(o)) if o[0] == 'v' else None for o in c.a]
+                    if any(y is None or y.op != 'load' for y in ys):
+                        continue
+                    fl = [f.fields_of(f.path(y.a[0])) for y in ys]
+                    rt = [f.root(f.path(y.a[0])) for y in ys]
+                    if not all(q and len(q) >= 2 and q[-2] == reg + '.extents' for q in fl) or rt[0] == rt[1] or rt[0][0] != 'arg' or rt[1][0] != 'arg':
+                        continue
+                    coord = fl[0][-1].split('.')[-1]
+                    if fl[1][-1].split('.')[-1] != coord:
+                        continue
+                    # A.x1 <= B.x1 or A.x2 >= B.x2  => A is the subsuming side
+                    if (coord in ('x1', 'y1') and pred == 'sle') or (coord in ('x2', 'y2') and pred == 'sge'):
+                        sub.add((rt[0][1], rt[1][1], coord))
+                    elif (coord in ('x1', 'y1') and pred == 'sge') or (coord in ('x2', 'y2') and pred == 'sle'):
+                        sub.add((rt[1][1], rt[0][1], coord))
+                pairs = {(a, bb) for a, bb, cc in sub}
+                for a, bb in pairs:
+                    if {cc for a2, b2, cc in sub if (a2, b2) == (a, bb)} != {'x1', 'x2', 'y1', 'y2'}:
+                        continue
+                    # only the block entered right after the four tests (not everything dominated by them)
+                    if not any(x.op in ('call', 'ret', 'store') for x in b.insts):
+                        continue
+                    key = (f.name, a, bb)
+                    n += 1; ck.saw(f)
+                    if a in nodata:
+                        ck.ok(R, '%s (%s): extents of %s contain those of %s and %s has no rectangle array' % (f.name, _w(u), f.params[a][0], f.params[bb][0], f.params[a][0]))
+                    else:
+                        ck.violation(R, f.name, 'subsumption shortcut without a single-rectangle test (%s)' % _w(u), '%s takes the "%s contains %s" shortcut from the extents alone without testing that %s is a single rectangle%s: a multi-rectangle %s with holes does not contain everything inside its bounding box, and the part of %s in a hole is lost' % (f.name, f.params[a][0], f.params[bb][0], f.params[a][0], (' (it tests %s instead)' % ', '.join(f.params[k][0] for k in sorted(nodata))) if nodata else '', f.params[a][0], f.params[bb][0]), b.insts[0].loc())
+                    break
+    if n == 0:
+        ck.incomplete(R, 'no extents-subsumption shortcut found')
